@@ -311,5 +311,5 @@ func VerifC06IsoWhere(v *vrt.T) {
 		verifC06Wire(&n.node, out)
 		return n
 	}
-	verifC06Isolation(v, mk, verifC06Points(v, v.Bound("points", 4), []int{0, 1}, 6))
+	verifC06Isolation(v, mk, verifC06Points(v, v.Bound("points", 4), []int{0, 1, 2}, 6))
 }
